@@ -1818,7 +1818,11 @@ Lemma Pk_lift_unit : forall r, Pk sch (out_state r) -> Pk sch (fst (lift_unit r)
 Proof. intros [s u|s er] H; exact H. Qed.
 
 Lemma Pk_delete_op : forall s h, Pk sch s -> Pk sch (fst (delete_op sch s h)).
-Proof. intros. unfold delete_op. destruct (hget s h); auto. apply Pk_lift_unit. apply Pk_delete_obj; auto. Qed.
+Proof.
+  intros s h P. unfold delete_op. destruct (hget s h) as [o|]; [|exact P].
+  assert (H : Pk sch (out_state (delete_obj (del_fuel sch s) sch s o))) by (apply Pk_delete_obj; auto). destruct (delete_obj (del_fuel sch s) sch s o) as [s1 u|s1 er]; cbn [fst].
+  exact H. apply Pk_dirty. discriminate.
+Qed.
 
 Lemma Pk_coll_op : forall s k h a hs, Pk sch s -> Pk sch (fst (coll_op sch s k h a hs)).
 Proof.
